@@ -115,3 +115,22 @@ if __name__ == '__main__':
         for name in sorted(os.listdir(SEEDED)):
             if os.path.isdir(os.path.join(SEEDED, name)) and name.startswith(only):
                 run(name, tier)
+    elif cmd == 'summary':
+        lines = ['# Seeded changes and the checks that catch them', '',
+                 'Regenerated by `tools/seed.py summary` from `seeded/*/meta.json` (outcomes recorded by `tools/seed.py runall`).', '',
+                 '| change | file(s) touched | what the change does (first line of the author\'s notes) | check | caught | failing input reported |',
+                 '|---|---|---|---|---|---|']
+        for name in sorted(os.listdir(SEEDED)):
+            d = os.path.join(SEEDED, name)
+            if not os.path.isdir(d):
+                continue
+            meta = json.load(open(os.path.join(d, 'meta.json')))
+            patch = open(os.path.join(d, 'patch.diff')).read()
+            files = sorted(set(l.split(' b/')[-1] for l in patch.split('\n') if l.startswith('diff --git')))
+            notes = (meta.get('needs') or '').strip().split('\n')
+            first = ' '.join(x.strip() for x in notes[:2])[:220].replace('|', '/')
+            for chk, res in sorted(meta.get('checks', {}).items()):
+                lines.append('| %s | %s | %s | %s | %s | %s |' % (name, ', '.join(files), first, chk, 'yes' if res.get('caught') else 'NO',
+                                                                (res.get('what') or '')[:160].replace('|', '/').replace('\n', ' ')))
+        open(os.path.join(SEEDED, 'SUMMARY.md'), 'w').write('\n'.join(lines) + '\n')
+        print('written', os.path.join(SEEDED, 'SUMMARY.md'))
